@@ -20,8 +20,10 @@ RULE = ("One event = one fit of one variant (Gaussian, multinomial, Bernoulli wi
         "from {-3,2,7} ({0,1,3} categorical) in any order, two of the alphas {1/2, 1, 2, 5} each, every query of the column product; "
         "sampled n = 3..4; every training set enumerated by the TLC design model (REPLAY) with alpha in {1/2, 2}; seeded random: 2..120 "
         "rows, 1..8 features, 2..5 classes with arbitrary integer labels and skewed frequencies, alpha in {1/100, 1/4, 1/2, 1, 2, 5}, "
-        "user priors, categorical labels with empty classes, Gaussian features rescaled by 2^-3..2^3, and the Gaussian "
-        "'translated copies' family on which the MAP decision is exactly decidable. An event is non-trivial when the fit succeeded "
+        "user priors (a quarter with an exact zero), categorical labels with empty classes, Gaussian features rescaled by 2^-3..2^3 "
+        "and per column by 2^-40 / 2^40 (features on wildly different scales), Gaussian fits on the ndarray (row-/column-major) and "
+        "nalgebra back ends, the Gaussian 'translated copies' family on which the MAP decision is exactly decidable, and well separated "
+        "Gaussian clusters with zero user priors queried from the zero-prior clusters. An event is non-trivial when the fit succeeded "
         "and (labels are not 0..k-1 in order, or alpha != 1, or priors were supplied) and at least two classes occur; "
         "distinct = distinct (variant, X, y, alpha, threshold, priors) tuples")
 
@@ -38,13 +40,19 @@ def key_of(e, clause):
     parts.append("user-priors" if e["hasPriors"] else "empirical-priors")
     ys = sorted(set(e["y"]))
     parts.append("labels-0..k-1" if ys == list(range(len(ys))) else "labels-arbitrary")
+    if e["hasPriors"] and 0 in e["priorsNum"]:
+        parts.append("zero-prior")
     if v == "gaussian" and e.get("e", 0) != 0:
         parts.append("rescaled")
+    if v == "gaussian" and len(set(e.get("ecol", []))) > 1:
+        parts.append("columns-rescaled")
+    if e.get("backend", "dense") != "dense":
+        parts.append(e["backend"])
     return " ".join(parts) + ": " + clause
 
 
 def what_of(e, clause):
-    small = {k: e[k] for k in ("variant", "X", "y", "aNum", "aDen", "hasThr", "thr2", "hasPriors", "priorsNum", "priorsDen", "e")}
+    small = {k: e[k] for k in ("variant", "X", "y", "aNum", "aDen", "hasThr", "thr2", "hasPriors", "priorsNum", "priorsDen", "e", "ecol", "backend")}
     if len(e["X"]) > 12:
         small["X"] = "(%d rows x %d features, see replay file)" % (len(e["X"]), len(e["X"][0]))
         small["y"] = "(see replay file)"
@@ -63,7 +71,7 @@ def nontrivial(e):
 
 
 def tup(e):
-    return vlib.digest([e["variant"], e["X"], e["y"], e["aNum"], e["aDen"], e["hasThr"], e["thr2"], e["priorsNum"], e["priorsDen"], e["e"]])
+    return vlib.digest([e["variant"], e["X"], e["y"], e["aNum"], e["aDen"], e["hasThr"], e["thr2"], e["priorsNum"], e["priorsDen"], e["e"], e.get("ecol"), e.get("backend")])
 
 
 def validate(ctx, name, events, must_hit=()):
@@ -114,8 +122,9 @@ def run(ctx):
         raise vlib.ToolError("replay-spec returned %d events for %d inputs" % (len(ev), len(rep)))
     common = ("gaussian", "multinomial", "bernoulli", "categorical", "AlphaNot1", "LabelsNotZeroBased", "MapOk")
     for mode, must in (("small", common + ("Binarized", "EmptyClass")),
-                       ("random", common + ("UserPriors", "Binarized", "EmptyClass", "Scaled")),
-                       ("gauss-shift", ("gaussian", "GaussFamilyMap", "Scaled"))):
+                       ("random", common + ("UserPriors", "Binarized", "EmptyClass", "Scaled", "ColScaled", "ZeroPrior", "OtherBackend")),
+                       ("gauss-shift", ("gaussian", "GaussFamilyMap", "Scaled", "ColScaled", "OtherBackend")),
+                       ("gauss-zero-prior", ("gaussian", "ZeroPrior", "ZeroPriorMapOk"))):
         f = ctx.path("c11-%s.ndjson" % mode)
         ctx.harness("gen-" + mode, f)
         add(mode, f, must)
